@@ -1263,13 +1263,44 @@ lys_compile_pattern_chblocks_xmlschema2perl(const struct ly_ctx *ctx, const char
     return LY_SUCCESS;
 }
 
+/**
+ * @brief Get the PCRE2 character class of an XML Schema multi-character escape that PCRE2 does not know or
+ * understands differently.
+ *
+ * @param[in] esc Character following the backslash.
+ * @return Members of the character class (without the enclosing brackets), NULL if @p esc needs no translation.
+ */
+static const char *
+lys_compile_pattern_xmlschema_mce(char esc)
+{
+    /* \i, \c are XML NameStartChar, NameChar (and their complements within the Unicode scalar values) */
+    static const struct {
+        char esc;
+        const char *members;
+    } xsdmce2class[] = {
+        {'i', "\\x{3A}\\x{41}-\\x{5A}\\x{5F}\\x{61}-\\x{7A}\\x{C0}-\\x{D6}\\x{D8}-\\x{F6}\\x{F8}-\\x{2FF}\\x{370}-\\x{37D}\\x{37F}-\\x{1FFF}\\x{200C}-\\x{200D}\\x{2070}-\\x{218F}\\x{2C00}-\\x{2FEF}\\x{3001}-\\x{D7FF}\\x{F900}-\\x{FDCF}\\x{FDF0}-\\x{FFFD}\\x{10000}-\\x{EFFFF}"},
+        {'I', "\\x{0}-\\x{39}\\x{3B}-\\x{40}\\x{5B}-\\x{5E}\\x{60}\\x{7B}-\\x{BF}\\x{D7}\\x{F7}\\x{300}-\\x{36F}\\x{37E}\\x{2000}-\\x{200B}\\x{200E}-\\x{206F}\\x{2190}-\\x{2BFF}\\x{2FF0}-\\x{3000}\\x{E000}-\\x{F8FF}\\x{FDD0}-\\x{FDEF}\\x{FFFE}-\\x{FFFF}\\x{F0000}-\\x{10FFFF}"},
+        {'c', "\\x{2D}-\\x{2E}\\x{30}-\\x{3A}\\x{41}-\\x{5A}\\x{5F}\\x{61}-\\x{7A}\\x{B7}\\x{C0}-\\x{D6}\\x{D8}-\\x{F6}\\x{F8}-\\x{37D}\\x{37F}-\\x{1FFF}\\x{200C}-\\x{200D}\\x{203F}-\\x{2040}\\x{2070}-\\x{218F}\\x{2C00}-\\x{2FEF}\\x{3001}-\\x{D7FF}\\x{F900}-\\x{FDCF}\\x{FDF0}-\\x{FFFD}\\x{10000}-\\x{EFFFF}"},
+        {'C', "\\x{0}-\\x{2C}\\x{2F}\\x{3B}-\\x{40}\\x{5B}-\\x{5E}\\x{60}\\x{7B}-\\x{B6}\\x{B8}-\\x{BF}\\x{D7}\\x{F7}\\x{37E}\\x{2000}-\\x{200B}\\x{200E}-\\x{203E}\\x{2041}-\\x{206F}\\x{2190}-\\x{2BFF}\\x{2FF0}-\\x{3000}\\x{E000}-\\x{F8FF}\\x{FDD0}-\\x{FDEF}\\x{FFFE}-\\x{FFFF}\\x{F0000}-\\x{10FFFF}"},
+        {0, NULL}
+    };
+    uint32_t u;
+
+    for (u = 0; xsdmce2class[u].esc; ++u) {
+        if (xsdmce2class[u].esc == esc) {
+            return xsdmce2class[u].members;
+        }
+    }
+    return NULL;
+}
+
 LY_ERR
 lys_compile_type_pattern_check(const struct ly_ctx *ctx, const char *pattern, pcre2_code **code)
 {
-    size_t idx, size, brack;
+    size_t idx, size, brack, len;
     char *perl_regex;
     int err_code, compile_opts;
-    const char *orig_ptr;
+    const char *orig_ptr, *members;
     PCRE2_SIZE err_offset;
     pcre2_code *code_local;
     pcre2_compile_context *cctx;
@@ -1298,6 +1329,29 @@ lys_compile_type_pattern_check(const struct ly_ctx *ctx, const char *pattern, pc
     escaped = 0;
     orig_ptr = pattern;
     while (orig_ptr[0]) {
+        if (escaped && (members = lys_compile_pattern_xmlschema_mce(orig_ptr[0]))) {
+            /* XML Schema multi-character escape, replace it (the backslash was already copied) with a character class
+             * or only with the members of the class if it is already enclosed in brackets */
+            len = strlen(members);
+            size += len;
+            perl_regex = ly_realloc(perl_regex, size);
+            LY_CHECK_ERR_RET(!perl_regex, LOGMEM(ctx), LY_EMEM);
+
+            --idx;
+            if (!brack) {
+                perl_regex[idx++] = '[';
+            }
+            memcpy(perl_regex + idx, members, len);
+            idx += len;
+            if (!brack) {
+                perl_regex[idx++] = ']';
+            }
+
+            ++orig_ptr;
+            escaped = 0;
+            continue;
+        }
+
         switch (orig_ptr[0]) {
         case '$':
         case '^':
